@@ -1,5 +1,6 @@
 import GapicModel.Driver.Base
 import GapicModel.Model.Transports
+import GapicModel.Model.Imports
 open Lean GapicModel GapicModel.Regex
 namespace GapicModel.Driver
 
@@ -11,6 +12,36 @@ def opC01Registry (j : Json) : Except String Json := do
   pure (Json.mkObj [("registry", jarr ((registry o).map jstr)), ("default", optJson jstr (defaultTransport o)),
     ("async_client", Json.bool (hasAsyncClient o))])
 
-def opsC01 : List (String × (Json → Except String Json)) := [("c01.registry", opC01Registry)]
+open Model.Emit Model.Imports in
+def slashed (p : Path) : Json := jstr (['/'].intercalate p)
+
+open Model.Emit Model.Imports in
+/-- the service-level modules: which are emitted and what they import from the package
+(`transport`, `restAsync`, `paged`) -/
+def opC01Imports (j : Json) : Except String Json := do
+  let tr ← (← getArrL j "transport").mapM fun v => do pure (← v.getStr?).toList
+  let ra ← (← j.getObjVal? "restAsync").getBool?
+  let paged ← (← j.getObjVal? "paged").getBool?
+  let o : Opts := ⟨tr, false, ra, false⟩
+  let mods := SMod.all.map fun m =>
+    Json.mkObj [("rel", slashed m.rel), ("template", jstr m.template), ("emitted", Json.bool (emitted o paged m)),
+      ("imports", jarr ((imports o paged m).map fun i =>
+        Json.mkObj [("anchor", Json.str (match i.anchor with | .rel _ => "rel" | .svcAbs => "svc" | .rootAbs => "root")),
+          ("level", jnat (match i.anchor with | .rel n => n | _ => 0)),
+          ("path", jarr (i.path.map jstr)), ("hard", Json.bool i.hard), ("target", slashed i.target.rel),
+          ("resolved", match i.anchor with | .rel n => slashed (resolveRel m.rel n i.path) | _ => Json.null)]))]
+  pure (Json.mkObj [("modules", jarr mods),
+    ("exports", jarr ((svcInitExports o).map fun c => Json.str (match c with | .sync => "sync" | .async => "async"))),
+    ("wants", jarr ((pkgInitWants o).map fun c => Json.str (match c with | .sync => "sync" | .async => "async")))])
+
+open Model.Imports in
+/-- `utils.empty(content)` and the keep/drop decision of `_get_file` for a file name -/
+def opC01Empty (j : Json) : Except String Json := do
+  let c ← getStrL j "content"
+  let n ← getStrL j "name"
+  pure (Json.mkObj [("empty", Json.bool (emptyContent c)), ("keep", Json.bool (keepFile n c))])
+
+def opsC01 : List (String × (Json → Except String Json)) :=
+  [("c01.registry", opC01Registry), ("c01.imports", opC01Imports), ("c01.empty", opC01Empty)]
 
 end GapicModel.Driver
